@@ -15,8 +15,9 @@ configuration of the CloneSet (`User`), by induction on the label list.  What is
 
 * over every history, all labels: the **world invariant** (`bg_world_inv`) and its corollaries `bg_old_pods_kept`,
   `bg_no_promotion_while_held`, `bg_settings_restored_partial`, `bg_crash`;
-* for every state (no reachability needed), one transition: `bg_refuses_continuous`, `bg_finalize_needs_resume`
-  (the BatchRelease half of `bg_traffic_before_scale_down`), `bg_total_partial`;
+* for every state (no reachability needed), one transition: `bg_refuses_continuous_ro` / `_br_partial`, `bg_finalize_needs_resume`
+  (the BatchRelease half of `bg_traffic_before_scale_down`) and — in `RV.Props.ClosedLoopBGResume` — `bg_resume_only_in_cleanup`
+  (the Rollout half, as a localisation), `bg_total_partial`;
 * `_partial` says exactly what is missing; every `_full_FALSE` is a concrete history evaluated by the kernel on the model and
   replayed on the real controllers from `corpus/closedloopbg/`.
 -/
